@@ -144,7 +144,7 @@ func dischargeVC(x *Exec, o *Obligation, opts verifyOpts) (Result, bool) {
 	disagree := false
 	prevText := ""
 	{
-		q := x.buildQueryM(o, opts.depth, 3, true)
+		q := x.buildQueryM(o, opts.depth, 6, true)
 		text := q.smtlib(false, "z3")
 		h := sha256.Sum256([]byte("qf" + text))
 		key := string(h[:])
